@@ -49,18 +49,34 @@ func buildTree(dir string, entries []string) {
 
 func init() {
 	// cksumfile: args = segment number, data
+	// (cross-checked with the harness's own pg_checksum_page: the listed errors must be exactly the blocks it rejects)
 	core.Register("cksumfile", func(args []string) string {
-		return showFileRes(pgdump.VerifyFileChecksums(unhex(args[1]), uint32(core.Atoi(args[0]))))
+		data, seg := unhex(args[1]), uint32(core.Atoi(args[0]))
+		r := pgdump.VerifyFileChecksums(data, seg)
+		text := showFileRes(r)
+		own := strings.Join(ownFileErrors(data, seg), ",")
+		if !strings.HasSuffix(text, ":["+own+"]") {
+			text += "!XCHECK:own=[" + own + "]"
+		}
+		return text
 	})
 
-	// pgcksum: args = block number, page -> "<valid>:<stored checksum>" of VerifyPageChecksum
+	// pgcksum: args = block number, page -> "<valid>:<stored checksum>:<computed checksum>" of VerifyPageChecksum
+	// (cross-checked with the harness's own pg_checksum_page: on a full non-zero page the computed value must be its value)
 	core.Register("pgcksum", func(args []string) string {
-		r := pgdump.VerifyPageChecksum(unhex(args[1]), uint32(core.Atoi(args[0])))
+		page, bn := unhex(args[1]), uint32(core.Atoi(args[0]))
+		r := pgdump.VerifyPageChecksum(page, bn)
 		v := 0
 		if r.Valid {
 			v = 1
 		}
-		return fmt.Sprintf("%d:%d", v, r.StoredChecksum)
+		text := fmt.Sprintf("%d:%d:%d", v, r.StoredChecksum, r.ComputedChecksum)
+		if len(page) == 8192 && !ownIsZero(page) {
+			if own := ownChecksumPage(page, bn); own != r.ComputedChecksum {
+				text += fmt.Sprintf("!XCHECK:own=%d", own)
+			}
+		}
+		return text
 	})
 
 	// cksumdir: args = flat entries of the data directory
